@@ -422,6 +422,9 @@ func genConfig(seed int64, index int, prologue string) *Config {
 				h.SrcIP = net.ParseIP("2001:db8::1")
 				h.DstIP = net.ParseIP("2001:db8::2")
 			}
+			if r.Intn(4) == 0 {
+				h.Local = true // the LOCAL command (a load balancer's own health check): real addresses, same stream
+			}
 			// (no TLVs here: the PROXY library in use rejects v2 headers that carry TLVs,
 			// so such a header is never "accepted"; C12 records that separately)
 		}
